@@ -468,8 +468,151 @@ func (c *Cluster) Entry(kind, dmapName, key string) (KV, error) {
 		return c.RawClient(owner, dmapName), nil
 	case "RN":
 		return c.RawClient(pick(0), dmapName), nil
+	case "PL":
+		cl, err := c.ClusterClient(pick(0))
+		if err != nil {
+			return nil, err
+		}
+		dm, err := cl.NewDMap(dmapName)
+		if err != nil {
+			return nil, err
+		}
+		return WrapPipeline(dm), nil
 	}
 	return nil, fmt.Errorf("unknown entry kind %q", kind)
 }
 
 var _ = strconv.Itoa
+
+// ---- pipeline (cluster client) -------------------------------------------------------------------
+
+type plKV struct {
+	dmKV
+}
+
+// WrapPipeline issues every supported operation as a one-command pipeline on a ClusterDMap.
+func WrapPipeline(dm olric.DMap) KV { return &plKV{dmKV{"PL", dm}} }
+
+func (k *plKV) pipe() *olric.DMapPipeline {
+	p, err := k.dm.Pipeline()
+	if err != nil {
+		panic(err)
+	}
+	return p
+}
+
+func (k *plKV) Put(key string, val []byte, o PutOpt) Res {
+	p := k.pipe()
+	defer p.Close()
+	f, err := p.Put(bg, key, val, putOptions(o)...)
+	if err != nil {
+		return Res{Err: ErrClass(err)}
+	}
+	if err := p.Exec(bg); err != nil {
+		return Res{Err: ErrClass(err)}
+	}
+	return Res{Err: ErrClass(f.Result())}
+}
+
+func (k *plKV) Get(key string) Res {
+	p := k.pipe()
+	defer p.Close()
+	f := p.Get(bg, key)
+	if err := p.Exec(bg); err != nil {
+		return Res{Err: ErrClass(err)}
+	}
+	return fromGet(f.Result())
+}
+
+func (k *plKV) Del(keys ...string) Res {
+	p := k.pipe()
+	defer p.Close()
+	var fs []*olric.FutureDelete
+	for _, key := range keys {
+		fs = append(fs, p.Delete(bg, key))
+	}
+	if err := p.Exec(bg); err != nil {
+		return Res{Err: ErrClass(err)}
+	}
+	total := int64(0)
+	for _, f := range fs {
+		n, err := f.Result()
+		if err != nil {
+			return Res{Err: ErrClass(err)}
+		}
+		total += int64(n)
+	}
+	return Res{N: total}
+}
+
+func (k *plKV) Incr(key string, d int) Res {
+	p := k.pipe()
+	defer p.Close()
+	f, err := p.Incr(bg, key, d)
+	if err != nil {
+		return Res{Err: ErrClass(err)}
+	}
+	if err := p.Exec(bg); err != nil {
+		return Res{Err: ErrClass(err)}
+	}
+	n, err := f.Result()
+	return Res{N: int64(n), Err: ErrClass(err)}
+}
+
+func (k *plKV) Decr(key string, d int) Res {
+	p := k.pipe()
+	defer p.Close()
+	f, err := p.Decr(bg, key, d)
+	if err != nil {
+		return Res{Err: ErrClass(err)}
+	}
+	if err := p.Exec(bg); err != nil {
+		return Res{Err: ErrClass(err)}
+	}
+	n, err := f.Result()
+	return Res{N: int64(n), Err: ErrClass(err)}
+}
+
+func (k *plKV) IncrByFloat(key string, d float64) Res {
+	p := k.pipe()
+	defer p.Close()
+	f, err := p.IncrByFloat(bg, key, d)
+	if err != nil {
+		return Res{Err: ErrClass(err)}
+	}
+	if err := p.Exec(bg); err != nil {
+		return Res{Err: ErrClass(err)}
+	}
+	x, err := f.Result()
+	return Res{F: x, Err: ErrClass(err)}
+}
+
+func (k *plKV) GetPut(key string, val []byte) Res {
+	p := k.pipe()
+	defer p.Close()
+	f, err := p.GetPut(bg, key, val)
+	if err != nil {
+		return Res{Err: ErrClass(err)}
+	}
+	if err := p.Exec(bg); err != nil {
+		return Res{Err: ErrClass(err)}
+	}
+	r, err := f.Result()
+	if err == nil && (r == nil || VerifIsNilResponse(r)) {
+		return Res{Nil: true}
+	}
+	return fromGet(r, err)
+}
+
+func (k *plKV) Expire(key string, d time.Duration) Res {
+	p := k.pipe()
+	defer p.Close()
+	f, err := p.Expire(bg, key, d)
+	if err != nil {
+		return Res{Err: ErrClass(err)}
+	}
+	if err := p.Exec(bg); err != nil {
+		return Res{Err: ErrClass(err)}
+	}
+	return Res{Err: ErrClass(f.Result())}
+}
